@@ -12,7 +12,7 @@ import sys
 sys.path.insert(0, os.path.dirname(os.path.dirname(os.path.abspath(__file__))))
 from harness import oscrt  # noqa: E402
 
-HOSTS = {1: '127.0.0.1', 2: '127.0.0.2'}
+HOSTS = {1: '127.0.0.1', 2: '127.0.0.2', 3: '127.0.0.3'}
 HOSTID = {v: k for k, v in HOSTS.items()}
 
 
@@ -65,7 +65,7 @@ class Env:
 
     def udp_path(self):
         if self.udp is None:
-            self.udp = oscrt.UdpPath(self.main, HOSTS, [(1, 5001), (1, 5002), (2, 5001)])
+            self.udp = oscrt.UdpPath(self.main, HOSTS, dict(self.ports))
         return self.udp
 
 
@@ -140,7 +140,7 @@ def do_dispatch(env, c):
             tm = (int(time * 2 ** 32) + off) % 2 ** 64
             log.append({'r': i, 'fn': fn, 'a': list(msg[0].encode('utf-8')), 'args': toks,
                         'src': {'h': HOSTID.get(addr.hostname, 0),
-                                'p': udp.sym.get((addr.hostname, addr.port), addr.port) if udp else addr.port},
+                                'p': udp.sym.get((addr.hostname, addr.port), addr.port) if udp else env.via.get(addr.port, addr.port)},
                         'via': env.via.get(port, 0),
                         'tm': list(tm.to_bytes(8, 'big')), 'd': d})
             for a in beh['acts']:
@@ -158,7 +158,7 @@ def do_dispatch(env, c):
                 i = len(rs) + 1
                 sp = e['src']['p']
                 if udp and sp:      # symbolic sender port -> the port of the real sending socket
-                    sp = udp.real_port(e['src']['h'], sp) if (e['src']['h'], sp) in udp.socks else 1
+                    sp = udp.real_port(e['src']['h'], sp)
                 src = None if e['src']['h'] == 0 else NetAddr(HOSTS[e['src']['h']], sp or None)
                 path = bytes(e['path']).decode('utf-8')
                 kw = dict(arg_template=template(e['tmpl']))
@@ -198,7 +198,8 @@ def do_dispatch(env, c):
                 if udp:
                     out = udp.deliver(dg, (e['src']['h'], e['src']['p']), 20.0, port=env.ports[e['via']])
                 else:
-                    out = oscrt.deliver(main, dg, (HOSTS[e['src']['h']], e['src']['p']), iface=env.ifaces[e['via']])
+                    out = oscrt.deliver(main, dg, (HOSTS[e['src']['h']], env.ports.get(e['src']['p'], e['src']['p'])),
+                                        iface=env.ifaces[e['via']])
                 if flood and out == 'ok':
                     out = 'flood'
                 rec = {'op': 'recv', 'dg': list(dg), 'src': e['src'], 'via': e['via'], 'out': out, 'log': list(log),
